@@ -18,40 +18,18 @@ REPO = os.environ.get("TYPHON_REPO", "/repo")
 sys.path.insert(0, HERE)
 import py2lean  # noqa: E402
 
-# module key -> (source file, [function specs in dependency order])
-MODULES = {
-    "Atmosphere": ("typhon/physics/atmosphere.py", [
-        {"name": "mixing_ratio2specific_humidity"},
-        {"name": "mixing_ratio2vmr"},
-        {"name": "specific_humidity2mixing_ratio"},
-        {"name": "specific_humidity2vmr"},
-        {"name": "vmr2mixing_ratio"},
-        {"name": "vmr2specific_humidity"},
-        {"name": "water_vapor_pressure2specific_humidity"},
-        {"name": "density", "const_defaults": True},
-        {"name": "e_eq_ice_mk"},
-        {"name": "e_eq_water_mk"},
-        {"name": "e_eq_mixed_mk", "glue": [
-            "is_float_input = isinstance(T, Number)",
-            "if is_float_input:",
-        ], "return_glue": "e_eq[0] if is_float_input else e_eq"},
-        {"name": "relative_humidity2vmr", "fun_params": {"e_eq": "e_eq_water_mk"}},
-        {"name": "vmr2relative_humidity", "fun_params": {"e_eq": "e_eq_water_mk"}},
-        {"name": "moist_lapse_rate", "fun_params": {"e_eq": "e_eq_water_mk"}},
-    ]),
-    "Em": ("typhon/physics/em.py", [
-        {"name": "planck"}, {"name": "planck_wavelength"}, {"name": "planck_wavenumber"},
-        {"name": "rayleighjeans"}, {"name": "rayleighjeans_wavelength"},
-        {"name": "radiance2planckTb"}, {"name": "radiance2rayleighjeansTb"},
-        {"name": "frequency2wavelength"}, {"name": "frequency2wavenumber"},
-        {"name": "wavelength2frequency"}, {"name": "wavelength2wavenumber"},
-        {"name": "wavenumber2frequency"}, {"name": "wavenumber2wavelength"},
-    ]),
-    "Scores": ("typhon/retrieval/scores.py", [
-        {"name": "mape", "reduction": "nanmean"},
-        {"name": "bias", "reduction": "mean"},
-    ]),
-}
+# specs/<name>.py each define  MODULE = ("LeanModuleName", "path/in/repo.py", [function specs
+# in dependency order]); see specs/atmosphere.py for the spec keys.
+def load_modules(spec_dir="specs"):
+    mods = {}
+    d = os.path.join(HERE, spec_dir)
+    for f in sorted(os.listdir(d)):
+        if f.endswith(".py") and not f.startswith("_"):
+            ns = {}
+            exec(compile(open(os.path.join(d, f)).read(), f, "exec"), ns)
+            name, rel, specs = ns["MODULE"]
+            mods[name] = (rel, specs)
+    return mods
 
 
 def write_if_changed(path, text):
@@ -100,13 +78,15 @@ def prepare(fn, spec, src):
     return glue
 
 
-def generate():
+def generate(package="numeric", spec_dir="specs"):
+    """package: lake package under /verif/lean that receives GenReal/ GenFloat/; spec_dir: directory
+    (under tools/py2lean) with the spec files"""
     C = load_constants()
     report = {"refused": {}, "functions": {}, "notes": {}}
     known = {}
     used_constants = {}
     outputs = {}
-    for mod, (rel, specs) in MODULES.items():
+    for mod, (rel, specs) in load_modules(spec_dir).items():
         src = open(os.path.join(REPO, rel), encoding="utf-8").read()
         try:
             tree = ast.parse(src)
@@ -153,7 +133,7 @@ def generate():
         cflt.append(f"/-- typhon.constants.{n} = {v!r} -/\ndef {py2lean.san(n)} : Float := Float.ofBits 0x{py2lean.float_bits(v):016X}\n")
     creal.append("end C\n")
     cflt.append("end CF\n")
-    base = os.path.join(ROOT, "lean", "numeric")
+    base = os.path.join(ROOT, "lean", package)
     changed = []
     if write_if_changed(os.path.join(base, "GenReal", "Constants.lean"), "\n".join(creal)):
         changed.append("GenReal/Constants.lean")
